@@ -208,3 +208,129 @@ Theorem C11_tree_after_self_refines :
 Proof. exact compltree_after_self_refines. Qed.
 
 Print Assumptions C11_tree_after_self_refines.
+
+(* ---- completion on a WORKSPACE of documents, at tree level (Model/WsTree.v, see Properties/C10.v) ---- *)
+From GoldV Require Import WsTree WsTreeProofs WsTreeWitness.
+
+(* the labels computed from the real trees -- in a method body on the chain [method table; root
+   table; ancestors' root tables ...], after `<entity>.` on the chain generate_rhs_of_entity chooses --
+   are the labels of Scoping.complete_plain / completion_member, in the same order *)
+Theorem C11_ws_complete_refines :
+  forall ws a d k mt, ws_ok ws -> ws_acyclic ws -> distinct_stems ws = true ->
+    nth_error ws a = Some d -> nth_error (method_tables_of false (snd d)) k = Some mt ->
+    exists me path, nth_error (e_methods (ent d)) k = Some me /\ lineage_t ws a = Ans (false, path) /\
+      (find_method (ent d) (me_name me) = Some me ->
+       labels_lhs (tree_chain ws a mt path) = complete_plain (absws ws) (fst d) (Some (me_name me)) /\
+       forall en,
+         match entity_chain ws a (tree_chain ws a mt path) en with
+         | Ans (Some chE) => labels_rhs chE = completion_member (absws ws) (fst d) (Some (me_name me)) en
+         | Ans None => completion_member (absws ws) (fst d) (Some (me_name me)) en = []
+         | Outside => False
+         end).
+Proof. exact ws_complete_refines. Qed.
+
+(* C11_plain on real trees *)
+Theorem C11_ws_plain :
+  forall ws a d k mt, ws_ok ws -> ws_acyclic ws -> distinct_stems ws = true ->
+    nth_error ws a = Some d -> nth_error (method_tables_of false (snd d)) k = Some mt ->
+    exists me path, nth_error (e_methods (ent d)) k = Some me /\ lineage_t ws a = Ans (false, path) /\
+      (find_method (ent d) (me_name me) = Some me -> lineage_clean (absws ws) (fst d) ->
+       let labels := labels_lhs (tree_chain ws a mt path) in
+       let m := Some (me_name me) in
+       NoDup (map upper labels) /\
+       (forall l, In l labels <->
+          (exists v, find_last v_name l (vars_of (absws ws) (fst d) m) = Some v /\ v_name v = l) \/
+          (find_last v_name l (vars_of (absws ws) (fst d) m) = None /\
+           exists e mem, nearest_member (absws ws) (fst d) l = Some (e, mem) /\ m_name mem = l /\ m_kind mem = MConst))).
+Proof. exact ws_complete_plain_spec. Qed.
+
+(* C11_after_dot / C11_after_dot_in_context on real trees *)
+Theorem C11_ws_after_dot :
+  forall ws a d k mt en, ws_ok ws -> ws_acyclic ws -> distinct_stems ws = true ->
+    nth_error ws a = Some d -> nth_error (method_tables_of false (snd d)) k = Some mt ->
+    exists me path, nth_error (e_methods (ent d)) k = Some me /\ lineage_t ws a = Ans (false, path) /\
+      (find_method (ent d) (me_name me) = Some me ->
+       match entity_chain ws a (tree_chain ws a mt path) en with
+       | Ans (Some chE) =>
+           labels_rhs chE = complete_after_dot (absws ws) en /\
+           (lineage_clean (absws ws) en ->
+            NoDup (map upper (labels_rhs chE)) /\
+            (forall l, In l (labels_rhs chE) <->
+               exists e mem, nearest_member (absws ws) en l = Some (e, mem) /\ m_name mem = l /\ is_fpf mem = true))
+       | Ans None => complete_after_dot (absws ws) en = []
+       | Outside => False
+       end).
+Proof. exact ws_complete_after_dot_spec. Qed.
+
+Theorem C11_ws_plain_case :
+  forall ws a stem t p idx enc pi q up full,
+    distinct_stems ws = true -> nth_error ws a = Some (stem, t) -> flat_methods t = true ->
+    full_chain ws a t (descend p t) = Ans full -> path_up p t = (idx, enc) :: (pi, q) :: up ->
+    is_dot enc = false -> is_dot q = false ->
+    wcompletion ws a p = Ans (labels_lhs full).
+Proof. exact wcompletion_plain_case. Qed.
+
+Theorem C11_ws_member_case :
+  forall ws a stem t p i enc pi q up full lft en,
+    distinct_stems ws = true -> nth_error ws a = Some (stem, t) -> flat_methods t = true ->
+    full_chain ws a t (descend p t) = Ans full -> path_up p t = (S i, enc) :: (pi, q) :: up ->
+    is_dot enc = false -> is_dot q = true -> first_child q = Some lft -> own_entity t lft = Some en ->
+    in_method (descend p t) = true ->
+    wcompletion ws a p =
+    match entity_chain ws a full en with
+    | Outside => Outside
+    | Ans None => Ans []
+    | Ans (Some ch) => Ans (labels_rhs ch)
+    end.
+Proof. exact wcompletion_member_case. Qed.
+
+(* non-vacuity: aChild (aParent) uses aLib, see C10_ws_nonvacuous *)
+Example C11_ws_nonvacuous :
+  ws_ok wsx /\ ws_acyclic wsx /\ distinct_stems wsx = true /\
+  wcompletion wsx 0 (mkPos 5 1) = Ans [[112]; [108]; [99;80]] /\                        (* p, l, the PARENT's constant cP *)
+  wcompletion wsx 0 (mkPos 6 6) = Ans [[102;99]; wx_Run; wx_Base; wx_fp] /\             (* self. -> fc, Run, Base, inherited fp *)
+  complete_plain (absws wsx) wx_aChild (Some wx_Run) = [[112]; [108]; [99;80]] /\
+  completion_member (absws wsx) wx_aChild (Some wx_Run) wx_aChild = [[102;99]; wx_Run; wx_Base; wx_fp].
+Proof.
+  destruct wsx_facts as (H1 & H2 & H3 & _ & _ & _ & _ & _ & _ & H10 & H11 & _ & _ & _ & H15 & H16).
+  split; [apply ws_okb_ok; exact H1|]. split; [apply ws_acyclicb_ok; exact H2|]. repeat split; assumption.
+Qed.
+
+Print Assumptions C11_ws_complete_refines.
+Print Assumptions C11_ws_plain.
+Print Assumptions C11_ws_after_dot.
+Print Assumptions C11_ws_plain_case.
+Print Assumptions C11_ws_member_case.
+Print Assumptions C11_ws_nonvacuous.
+
+(* completion after `x.` for a typed operand x (WsTree.typed_entity, see C10_ws_typed_member_case; PARTIAL
+   in the same sense: the typing step is tied to the code by the differential run only) *)
+Theorem C11_ws_typed_member_case :
+  forall ws a stem t p i enc pi q up full lft,
+    distinct_stems ws = true -> nth_error ws a = Some (stem, t) -> flat_methods t = true ->
+    full_chain ws a t (descend p t) = Ans full -> path_up p t = (S i, enc) :: (pi, q) :: up ->
+    is_dot enc = false -> is_dot q = true -> first_child q = Some lft -> own_entity t lft = None ->
+    wcompletion ws a p =
+    match typed_entity ws a t (descend p t) lft with
+    | Outside => Outside
+    | Ans None => Ans []
+    | Ans (Some en) =>
+        match entity_chain ws a full en with
+        | Outside => Outside
+        | Ans None => Ans []
+        | Ans (Some ch) => Ans (labels_rhs ch)
+        end
+    end.
+Proof. exact wcompletion_typed_member_case. Qed.
+
+Example C11_ws_typed_nonvacuous :
+  ws_ok wsx2 /\ ws_acyclic wsx2 /\ distinct_stems wsx2 = true /\
+  wcompletion wsx2 3 (mkPos 2 3) = Ans [[102;99]; wx_Run; wx_Base; wx_fp] /\            (* q. , q : aChild *)
+  completion_member (absws wsx2) wx_aUser (Some [71;111]) wx_aChild = [[102;99]; wx_Run; wx_Base; wx_fp].
+Proof.
+  destruct wsx2_facts as (H1 & H2 & H3 & _ & H5 & _ & _ & H8).
+  split; [apply ws_okb_ok; exact H1|]. split; [apply ws_acyclicb_ok; exact H2|]. repeat split; assumption.
+Qed.
+
+Print Assumptions C11_ws_typed_member_case.
+Print Assumptions C11_ws_typed_nonvacuous.
